@@ -127,6 +127,14 @@ Step(ans, oc) ==
                     [] pc = "crc" -> Complete(cur \o ans, oc)
   /\ UNCHANGED <<validate, parsed, quit>>
 
+\* log mode: the user's error handler itself raises - its exception leaves read(); the damaged
+\* item has been consumed, so the next call starts at the next item (the handler was called ONCE)
+HandlerRaises ==
+  /\ pc = "b1" /\ obs.ev = "handler" /\ quit = 1
+  /\ pc' = "idle" /\ cur' = << >> /\ got' = << >>
+  /\ obs' = [obs EXCEPT !.ev = "hraise"]
+  /\ UNCHANGED <<validate, parsed, quit>>
+
 ---------------------------------------------------------------------------
 \* Invariants of the framer design
 
@@ -161,7 +169,7 @@ OnlyLibraryErrors == obs.ev \in {"raise", "handler"} => obs.cls \in LibClasses
 \* ignore / log mode never raise; ignore mode never reports
 ModeDiscipline ==
   /\ (obs.ev = "raise" => quit = 2)
-  /\ (obs.ev = "handler" => quit = 1)
+  /\ (obs.ev \in {"handler", "hraise"} => quit = 1)
 
 \* C17: the number of bytes requested depends on (pc, cur) only, never on an
 \* option - so no option can change how many bytes are taken for a frame
